@@ -86,7 +86,7 @@ def main():
             "guard": "profirust_verif",
             "enable": "RUSTFLAGS='--cfg profirust_verif' (set in /verif/harness/.cargo/config.toml; the harness has a path dependency on /repo)",
             "baseline_off_cmd": "cd /repo && cargo test --workspace --no-fail-fast --offline",
-            "source_commits": ["e4b165e"],
+            "source_commits": ["e4b165e", "03f23c5", "52230fe"],
             "add_only": True,
         },
         "engines": [
